@@ -397,6 +397,8 @@ func Extract() *fx.Group {
 	// backend/file: Writable refuses when readOnly (the root of the capability)
 	g.Bool("fileWritableRefusesReadOnly", writableRefuses())
 	g.Bool("openReadOnlyMapsToReadOnlyBackend", openMapsReadOnly())
+	// the constructor table (ctor.go): every constructor x flags evaluated to (os.OpenFile flags, readOnly field)
+	ctorFacts(g)
 	return g
 }
 
